@@ -729,10 +729,15 @@ class Session:
         """(canonical result | 'EXC:<type>', {var: [canonical H...]}, note)"""
         self.rec.clear()
         kw = dict(output=self.out, max_workers=workers, scheduler=scheduler, progress=None)
+        if workers == "bare":
+            kw = dict(output=self.out)
         note = None
         if coop_seed is None:
             try:
-                res = self.canon(uberjob.run(self.plan, **kw))
+                import contextlib
+                import io
+                with contextlib.redirect_stdout(io.StringIO()), contextlib.redirect_stderr(io.StringIO()):
+                    res = self.canon(uberjob.run(self.plan, **kw))
             except uberjob.CallError:
                 res = "FAIL"
             except Exception as e:  # anything else is not what C02 allows
@@ -768,9 +773,13 @@ def parse_reply(line):
     return d.get("res"), recs, int(d.get("nodes", -1)), int(d.get("edges", -1))
 
 
-CONFIGS_Q = [(2, "default", None), (8, "random", None), (3, "random", None), (2, None, 0), (3, "random", 1)]
+# workers None = `max_workers` at its default; "bare" = `uberjob.run(plan, output=...)` with EVERY option at its default (the
+# default pool, the default display - its output is swallowed -, the default scheduler)
+CONFIGS_Q = [(2, "default", None), (8, "random", None), (3, "random", None), (2, None, 0), (3, "random", 1), (None, None, 2),
+             ("bare", None, None)]
 CONFIGS_T = [(2, "default", None), (8, "random", None), (3, "random", None), (1, "random", None),
-             (2, None, 0), (3, "random", 1), (1, "default", 2), (4, "default", 3)]
+             (2, None, 0), (3, "random", 1), (1, "default", 2), (4, "default", 3), (None, None, 2), (None, "random", None),
+             ("bare", None, None)]
 
 
 # ------------------------------------------------------------------------------------------------
@@ -1038,11 +1047,11 @@ def check_session(s, prog, model_reply, configs, seed):
     for wk, sch, cs in configs:
         cseed = None if cs is None else (seed * 7919 + cs * 104729 + 13) % (1 << 30)
         res2, recs2, _ = s.run(wk, sch, cseed)
-        w = compare(res2, recs2, "workers=%d scheduler=%s%s" % (wk, sch, "" if cs is None else " schedule=%d" % cseed))
+        w = compare(res2, recs2, "workers=%s scheduler=%s%s" % (wk, sch, "" if cs is None else " schedule=%d" % cseed))
         if w is None and res2 != res:
             w = "result differs between runs: %s vs %s" % (res, res2)
         if w is None and res != "FAIL" and recs2 != recs:
-            w = "recordings differ between runs (workers=%d scheduler=%s)" % (wk, sch)
+            w = "recordings differ between runs (workers=%s scheduler=%s)" % (wk, sch)
         if w:
             viol.append({"property": "C02", "what": w, "prog": prog, "config": [wk, sch, cseed]})
             break
